@@ -4,7 +4,7 @@
    [and_contour] / [or_contour] the whole computation; [Rops] is the real-number instance. *)
 From Coq Require Import Reals Lra List ZArith Bool PrimFloat.
 From V.model Require Import AndOr.
-From V.proofs Require Import AndOrProofs.
+From V.proofs Require Import AndOrProofs AndOrMore.
 Import ListNotations.
 
 (* any number structure (so also for the binary64 run compared with the implementation): the returned vector is the
@@ -82,6 +82,56 @@ Theorem C04_or_closure : forall T (K : ops T) sample alpha allowed xm ym thetas 
     l = kept ++ [(zero K, snd (last kept first)); (zero K, zero K); (fst first, zero K)].
 Proof. exact or_contour_closure. Qed.
 
+(* ---- audit round ---- *)
+Local Close Scope R_scope.
+
+(* the warning of a ray is emitted exactly when its 100th iteration has run; one exceedance count per iteration *)
+Theorem C04_warning_iff_100_iterations : forall T (K : ops T) m sample alpha allowed xm ym theta,
+  let r := search_ray T K m sample alpha allowed xm ym theta in
+  (r_warned r = true -> length (r_trace r) = 100) /\ (r_warned r = false -> length (r_trace r) < 100).
+Proof. exact ray_warned_iff_100. Qed.
+
+(* one ray per angle of the grid, in the order of the grid (whatever lowest_theta, highest_theta, deg_step produce) *)
+Theorem C04_rays_follow_thetas : forall T (K : ops T) m sample alpha allowed xm ym thetas,
+  length (rays T K m sample alpha allowed xm ym thetas) = length thetas /\
+  forall i d, i < length thetas ->
+    nth i (rays T K m sample alpha allowed xm ym thetas) (search_ray T K m sample alpha allowed xm ym d) =
+    search_ray T K m sample alpha allowed xm ym (nth i thetas d).
+Proof. exact rays_follow_thetas. Qed.
+
+(* OrContour fails iff some ray has no vector (allowed_error >= 1) or no searched point is inside 1.1 x the sample
+   maximum -- in particular for an empty angle grid (lowest_theta >= highest_theta) *)
+Theorem C04_or_error : forall T (K : ops T) sample alpha allowed xm ym thetas dflt,
+  let xmax := mul K (c11 K) (maxl T K (map fst sample) dflt) in
+  let ymax := mul K (c11 K) (maxl T K (map snd sample) dflt) in
+  fst (or_contour T K sample alpha allowed xm ym thetas dflt) = None <->
+  (exists theta, In theta thetas /\ r_vec (search_ray T K Or sample alpha allowed xm ym theta) = None) \/
+  (exists pts, points T (rays T K Or sample alpha allowed xm ym thetas) = Some pts /\ filter (in_range T K xmax ymax) pts = []).
+Proof. exact or_contour_error. Qed.
+
+(* n = int(100/alpha) points are drawn when neither sample nor n is given; a supplied sample is used as it is *)
+Theorem C04_sample_size : forall T (K : ops T) S (draw : Z -> S) (smp : S) n n_opt alpha,
+  used_sample T K draw None None alpha = draw (trunc K (div K (c100 K) alpha)) /\
+  used_sample T K draw None (Some n) alpha = draw n /\
+  used_sample T K draw (Some smp) n_opt alpha = smp.
+Proof. exact sample_size_clauses. Qed.
+
+Local Open Scope R_scope.
+Theorem C04_sample_size_real : forall alpha,
+  IZR (sample_size R Rops None alpha) <= 100 / alpha < IZR (sample_size R Rops None alpha) + 1.
+Proof. exact sample_size_R. Qed.
+
+(* along a ray of the first quadrant the number of exceeding observations (AND and OR) does not increase with the
+   distance: what 'pe > alpha => move outward, else halve the step and move inward' relies on *)
+Theorem C04_exceedance_antitone_along_ray : forall m (sample : list (R * R)) (u : R * R) maxd rd1 rd2,
+  0 <= fst u -> 0 <= snd u -> 0 <= maxd -> rd1 <= rd2 ->
+  (count R Rops m (point_at R Rops u rd2 maxd) sample <= count R Rops m (point_at R Rops u rd1 maxd) sample)%nat.
+Proof. exact exceedance_antitone. Qed.
+Theorem C04_unit_vector : forall theta rd maxd,
+  (let v := point_at R Rops (unit_vec R Rops theta) rd maxd in fst v * fst v + snd v * snd v = (rd * maxd) * (rd * maxd)) /\
+  (0 <= theta <= 90 -> 0 <= fst (unit_vec R Rops theta) /\ 0 <= snd (unit_vec R Rops theta)).
+Proof. exact (fun theta rd maxd => conj (point_distance theta rd maxd) (unit_vec_first_quadrant theta)). Qed.
+
 (* the executable binary64 entry points run against the implementation ARE the generic model *)
 Theorem C04_float_model_is_generic : forall ctab stab sample alpha allowed xm ym lowest highest deg_step,
   and_contour_f ctab stab sample alpha allowed xm ym deg_step =
@@ -111,3 +161,10 @@ Print Assumptions C04_and_closure.
 Print Assumptions C04_and_error.
 Print Assumptions C04_or_closure.
 Print Assumptions C04_float_model_is_generic.
+Print Assumptions C04_warning_iff_100_iterations.
+Print Assumptions C04_rays_follow_thetas.
+Print Assumptions C04_or_error.
+Print Assumptions C04_sample_size.
+Print Assumptions C04_sample_size_real.
+Print Assumptions C04_exceedance_antitone_along_ray.
+Print Assumptions C04_unit_vector.
